@@ -15,7 +15,7 @@ import time
 
 from lxml import etree
 
-from odfdo import Cell, Column, Row
+from odfdo import Cell, Column, Row, Table
 
 from .. import engine, report
 from ..machines.tables import TableMachine
@@ -232,6 +232,24 @@ def getter_cases(W, H):
     return cases
 
 
+def adopt_row(r):
+    """The returned copy is attached as it is (clone=False) to another table, then changed there:
+    a detached copy shares nothing with the table it was read from, so that table must not move."""
+    other = Table("Other")
+    other.append_row(Row(width=1))
+    other.append_row(r, clone=False)
+    r.repeated = 3
+    other.get_values()
+
+
+def adopt_cell(c):
+    other = Row()
+    other.append_cell(Cell(1))
+    other.append_cell(c, clone=False)
+    c.repeated = 3
+    other.get_values()
+
+
 def mutations(kind):
     if kind == "cell":
         return [
@@ -239,6 +257,7 @@ def mutations(kind):
             ("style", lambda c: setattr(c, "style", "zz")),
             ("clear", lambda c: c.clear()),
             ("repeated=3", lambda c: setattr(c, "repeated", 3)),
+            ("adopted-by-another-row,repeated=3", adopt_cell),
         ]
     if kind == "row":
         return [
@@ -248,6 +267,7 @@ def mutations(kind):
             ("repeated=3", lambda r: setattr(r, "repeated", 3)),
             ("style", lambda r: setattr(r, "style", "zz")),
             ("clear", lambda r: r.clear()),
+            ("adopted-by-another-table,repeated=3", adopt_row),
         ]
     return [
         ("style", lambda c: setattr(c, "style", "zz")),
